@@ -12,8 +12,8 @@
    row-skipping parser [parse_csv] followed by the year map look-up [mget]
    (a cached year is accepted for a date iff the date is in it). *)
 From Coq Require Import List NArith ZArith QArith Qcanon Bool.
-From ACB Require Import Base.QcExtra Base.Fit Model.Rates Model.CrashFs
-     Proofs.RatesProps Proofs.CrashProps.
+From ACB Require Import Base.Outcome Base.QcExtra Base.Fit Base.Arith Model.Rates Model.RatesCache
+     Model.CrashFs Spec.RateRule Proofs.RatesProps Proofs.CacheProps Proofs.CrashProps.
 Import ListNotations.
 Local Open Scope Z_scope.
 
@@ -34,6 +34,43 @@ Check C14_safe_rename : forall (pubval : Z -> Qc) old tmp0 new live tmp,
   post_crash (rename_proc new) (fs_of old tmp0) live tmp ->
   forall b x v, live = Some b -> mget x (parse_csv b) = Some v -> v = pubval x.
 Print Assumptions C14_safe_rename.
+
+(* The property as stated, composed with C13: whatever the crash point of an
+   interrupted write (of the year a run with (tn, an) was writing, over the
+   year an earlier run with (to, ao) wrote, or over nothing), ANY later
+   history of runs over the directory the crash left behind answers every
+   look-up exactly like a loader without a cache (re-downloading when the
+   cached year does not cover a date), and downloads no year twice in a run. *)
+Theorem C14_later_runs_unaffected :
+  forall (truth : calendar) y old tmp0 new live tmp t0 a0 tn an runs params,
+    file_of_run truth y new tn an -> tn <= t0 -> an <= a0 -> tn <= an <= tn + 1 ->
+    match old with
+    | Some rs => exists to ao, file_of_run truth y rs to ao /\ to <= t0 /\ ao <= a0 /\ to <= ao <= to + 1
+    | None => True
+    end ->
+    post_crash (rename_proc new) (fs_of old tmp0) live tmp ->
+    runs_ok truth t0 a0 runs params ->
+    exists s' outs,
+      history true {| s_years := []; s_fresh := []; s_cache := cache_of_live y live; s_dl := [] |} runs
+        = Ok (s', outs) /\
+      map fst outs = ref_answers truth runs params /\
+      Forall (fun o => NoDup (snd o)) outs.
+Proof. exact CrashProps.later_runs_unaffected. Qed.
+Check C14_later_runs_unaffected :
+  forall (truth : calendar) y old tmp0 new live tmp t0 a0 tn an runs params,
+    file_of_run truth y new tn an -> tn <= t0 -> an <= a0 -> tn <= an <= tn + 1 ->
+    match old with
+    | Some rs => exists to ao, file_of_run truth y rs to ao /\ to <= t0 /\ ao <= a0 /\ to <= ao <= to + 1
+    | None => True
+    end ->
+    post_crash (rename_proc new) (fs_of old tmp0) live tmp ->
+    runs_ok truth t0 a0 runs params ->
+    exists s' outs,
+      history true {| s_years := []; s_fresh := []; s_cache := cache_of_live y live; s_dl := [] |} runs
+        = Ok (s', outs) /\
+      map fst outs = ref_answers truth runs params /\
+      Forall (fun o => NoDup (snd o)) outs.
+Print Assumptions C14_later_runs_unaffected.
 
 (* atomicity, by induction over the step list: at every crash point the live
    file is the complete old content (or still absent) or the complete new one *)
